@@ -94,7 +94,8 @@ def file_desc(draw, nested=False):
 
             if f.get('misdeclare'):
                 # the usual history: a wrongly declared encoding corrected
-                f['then'] = dict(f, misdeclare=False)
+                # (the diff itself is not touched)
+                f['then'] = dict(f, misdeclare=False, redeclare_only=True)
                 f['then'].pop('then', None)
 
     return f
@@ -165,6 +166,11 @@ def build_tree(case):
 def apply_diff(fs, f):
     """Give the file section the diff a description stands for; returns
     (insertions, deletions) if it is to be analysed, else None."""
+    if f.get('redeclare_only'):
+        fs.diff_encoding = f['encoding']
+        data, ins, dels = diff_bytes(f)
+        return (ins, dels) if data else None
+
     fs.diff_section.options.clear()
     analysed = None
 
